@@ -263,6 +263,84 @@ theorem clean_enforces_age_nowrap (L : List (Nat × Nat)) (hs : NonDecreasing L)
   · right; rw [cutoff_nowrap _ _ hw1]; omega
   · right; rw [tsLt_iff, cutoff_nowrap _ _ hw2]; left; simp only; omega
 
+/-- strictly increasing timestamps -/
+def StrictlyIncreasing (L : List (Nat × Nat)) : Prop := L.Pairwise fun a b => tsLt a b = true
+
+/-! ### retention at the system level (`Sys.commitWith` = Engine.Commit with `txn.Clean`) -/
+
+theorem cleanDropped_zero_of_ge (minIndex maxIndex : Int) (z : Bool) (minT maxT nowI : Nat) (i : Nat) (docs : List SDoc)
+    (h : minIndex ≤ (i : Int)) : cleanDropped minIndex maxIndex z minT maxT nowI i docs = 0 := by
+  cases docs with
+  | nil => rfl
+  | cons sd r =>
+    have : decide ((i : Int) < minIndex) = false := by simp; omega
+    simp [cleanDropped, this]
+
+/-- with at most `minSize` events in the log Clean does nothing at all (no assumption on the events) -/
+theorem clean_small_noop (t : Txn) (minSize maxSize : Int) (minAgeS maxAgeS : Nat) (z : Bool) (nowT nowI : Nat)
+    (hsmall : (t.oplog.length : Int) ≤ minSize) :
+    t.clean minSize maxSize minAgeS maxAgeS z nowT nowI = t := by
+  unfold Txn.clean
+  simp only [Txn.oplog, Catalog.oplog] at hsmall ⊢
+  rw [cleanDropped_zero_of_ge _ _ _ _ _ _ 0 _ (by omega)]
+  simp
+
+/-- `commit_eq_commitWith_when_small`: as long as the transaction's log holds no more than `minSize`
+    events (default 100), committing with retention and the plain `Sys.commit` used by the streams
+    and by the theorems of parts 2–4 coincide. -/
+theorem commit_eq_commitWith_when_small (cfg : CleanCfg) (nowT nowI : Nat) (s : Sys) (t : Txn) (nu : Nu)
+    (hsmall : (t.oplog.length : Int) ≤ cfg.minSize) :
+    s.commitWith cfg nowT nowI t nu = s.commit t nu := by
+  unfold Sys.commitWith Sys.commit
+  rw [clean_small_noop t _ _ _ _ _ _ _ hsmall]
+
+/-- a transaction that is not dirty publishes nothing, with or without retention -/
+theorem commitWith_clean_txn (cfg : CleanCfg) (nowT nowI : Nat) (s : Sys) (t : Txn) (nu : Nu) (h : t.dirty = false) :
+    (s.commitWith cfg nowT nowI t nu).catalog = s.catalog := by
+  simp [Sys.commitWith, h]
+
+/-- `commitWith_spec`: the log published by a dirty commit is the transaction's log minus its first
+    `k = cleanCount …` events; no removed event is one of the `minSize` newest or (unless
+    `minAge == 0`) as young as the minimum-age cutoff; with non-decreasing timestamps the removed
+    events are exactly the droppable ones (everything beyond the maximum size or age that neither
+    protection covers goes); every other namespace is published as the transaction left it. -/
+theorem commitWith_spec (cfg : CleanCfg) (nowT nowI : Nat) (s : Sys) (t : Txn) (nu : Nu) (L : List (Nat × Nat))
+    (hts : HasTs t L) (hd : t.dirty = true) :
+    let k := cleanCount L cfg.minSize cfg.maxSize cfg.minAgeS cfg.maxAgeS cfg.minAgeZero nowT nowI
+    (s.commitWith cfg nowT nowI t nu).catalog.oplog = t.oplog.drop k ∧
+    (∀ j, j < k → (j : Int) < (L.length : Int) - cfg.minSize) ∧
+    (cfg.minAgeZero = false → ∀ j ts, j < k → L[j]? = some ts → ts.1 < cutoffT nowT cfg.minAgeS) ∧
+    (NonDecreasing L → ∀ j ts, L[j]? = some ts →
+      (j < k ↔ droppable L.length cfg.minSize cfg.maxSize cfg.minAgeZero (cutoffT nowT cfg.minAgeS)
+        (cutoffT nowT cfg.maxAgeS) nowI j ts = true)) ∧
+    (∀ h, h ≠ oplogHandle → (s.commitWith cfg nowT nowI t nu).catalog.get? h = t.catalog.get? h) := by
+  intro k
+  have hcat : (s.commitWith cfg nowT nowI t nu).catalog
+      = (t.clean cfg.minSize cfg.maxSize cfg.minAgeS cfg.maxAgeS cfg.minAgeZero nowT nowI).catalog := by
+    simp [Sys.commitWith, hd]
+  refine ⟨?_, ?_, ?_, ?_, ?_⟩
+  · rw [hcat]; exact clean_prefix t L hts ..
+  · exact (clean_protects_min_size L cfg.minSize cfg.maxSize cfg.minAgeS cfg.maxAgeS cfg.minAgeZero nowT nowI).1
+  · intro hz j ts hj hl
+    have hj' : j < cleanCount L cfg.minSize cfg.maxSize cfg.minAgeS cfg.maxAgeS false nowT nowI := hz ▸ hj
+    exact (clean_protects_min_age L cfg.minSize cfg.maxSize cfg.minAgeS cfg.maxAgeS nowT nowI j ts hj' hl).2
+  · intro hs j ts hl
+    exact clean_removes_all_droppable L hs cfg.minSize cfg.maxSize cfg.minAgeS cfg.maxAgeS cfg.minAgeZero nowT nowI j ts hl
+  · intro h hne
+    rw [hcat]; exact clean_other_namespaces t _ _ _ _ _ _ _ h hne
+
+/-- retention at commit keeps the event ids strictly increasing: a stream reading the published log
+    still sees increasing ids, now starting after the dropped prefix -/
+theorem commitWith_keeps_strict (cfg : CleanCfg) (nowT nowI : Nat) (s : Sys) (t : Txn) (nu : Nu) (L : List (Nat × Nat))
+    (hts : HasTs t L) (hs : StrictlyIncreasing L) (hd : t.dirty = true) :
+    let k := cleanCount L cfg.minSize cfg.maxSize cfg.minAgeS cfg.maxAgeS cfg.minAgeZero nowT nowI
+    (s.commitWith cfg nowT nowI t nu).catalog.oplog.map (fun sd => eventTs sd.doc) = (L.drop k).map some ∧
+    StrictlyIncreasing (L.drop k) := by
+  intro k
+  have h := (commitWith_spec cfg nowT nowI s t nu L hts hd).1
+  refine ⟨?_, hs.sublist (List.drop_sublist k L)⟩
+  rw [h, List.map_drop, hts, List.map_drop]
+
 /-! non-vacuity (evaluated tests): a log of 6 events stamped 100,100,200,300,400,400 s; now = (1000, 7) -/
 private def ev (i T I : Nat) : SDoc := { id := i, doc := [("_id", .doc [("ts", .ts T I)]), ("operationType", .str "insert")] }
 private def log6 : List SDoc := [ev 0 100 1, ev 1 100 2, ev 2 200 1, ev 3 300 1, ev 4 400 1, ev 5 400 2]
@@ -282,6 +360,10 @@ private def L6 : List (Nat × Nat) := [(100, 1), (100, 2), (200, 1), (300, 1), (
 -- n ≤ minSize: nothing, transaction untouched
 #guard cleanCount L6 6 0 0 0 true 1000 7 == 0
 #guard !(t6.clean 6 0 0 0 true 1000 7).dirty
+-- commit with retention vs. plain commit
+#guard ((Sys.init.commitWith { minSize := 1, maxSize := 2, minAgeS := 0, maxAgeS := 900, minAgeZero := true } 1000 7
+  { t6 with dirty := true } { nextId := 9, oids := [] }).catalog.oplog.map (·.id)) == [4, 5]
+#guard ((Sys.init.commitWith { minSize := 6 } 1000 7 { t6 with dirty := true } { nextId := 9, oids := [] }).catalog.oplog.length) == 6
 -- wrap-around: nowT = 100 < age 900 gives a cutoff near 2³², everything looks old
 #guard cutoffT 100 900 == 4294966496
 #guard cutoffT 1000 900 == 100
@@ -290,9 +372,6 @@ private def L6 : List (Nat × Nat) := [(100, 1), (100, 2), (200, 1), (300, 1), (
 
   In the model the event id `_id.ts` is `(0, k)` with `k` the logical clock (the harness renumbers
   the real `bsonkit.Now()` stamps, which are strictly increasing by construction of `Now`). -/
-
-/-- strictly increasing timestamps -/
-def StrictlyIncreasing (L : List (Nat × Nat)) : Prop := L.Pairwise fun a b => tsLt a b = true
 
 theorem range_strict (a n : Nat) : StrictlyIncreasing ((List.range' a n).map fun k => (0, k)) := by
   unfold StrictlyIncreasing
